@@ -53,6 +53,13 @@ class EngineScenario:
         self.tasks = []
         self.fault = fault
 
+    def stalls(self, rng, p=0.04, choices=(0.25, 0.6, 1.3)):
+        """from now on the event loop occasionally wakes up late (a callback that blocked it); every
+        stall is logged so that the trace specification can move its bounds by exactly that much"""
+        loop = self.s.loop
+        loop.lateness = lambda: (rng.choice(choices) if rng.random() < p else 0.0)
+        loop.on_late = lambda when, late: self.ev.append({"k": "stall", "d": ms(late), "t": ms(when + late), "_n": next(_vl.SEQ)})
+
     def close(self):
         self.s.close()
 
